@@ -28,7 +28,11 @@ RULE = ("(ip,len) pairs: ip from a boundary pool (0, 1, max, max-1, all-ones / s
         "non-trivial = accepted address with len < width, or a rejected text at edit distance one from a valid one. "
         "Regions outside the model, never generated: lone surrogates; a trailing line feed can not survive strip(), so the "
         "'$ before final \\n' reading of the regexes is never exercised; arguments that are neither str nor int nor an address "
-        "object; `strict=True`; `debug`.")
+        "object; `strict=True`; `debug`. "
+        "Every accepted case is checked three ways: implementation = model (all 19 / 18 derived values as one answer line), "
+        "implementation = real `ipaddress` (oracle), and implementation against the Spec-level reading of the renderings written "
+        "from the definitions of Spec/IP.lean (width / digits / value of as_zeropadded, as_zeropadded_network, as_hex, as_hex_tuple, "
+        "as_binary_tuple; the RFC 5952 text by the quantifiers of IsShortened for str(ip), as_cidr_addr, as_cidr_net, compressed).")
 LEVEL_TEXT = ("Theorems (Lean 4, all (ip,len), no size bound): every derived value of the modelled IPv4Obj/IPv6Obj equals the "
               "ipaddress specification (network = ip AND mask, mask = 2^w - 2^(w-len), last = net OR hostmask = net + 2^(w-len) - 1, "
               "dotted-quad / exploded / compressed text round trips through the stdlib parser model), host bits are kept, integer and "
@@ -39,15 +43,30 @@ LEVEL_TEXT = ("Theorems (Lean 4, all (ip,len), no size bound): every derived val
               "spelling, as 'a', 'a/len' or 'a len' with surrounding blanks, parses to its value through regex automaton, blank-to-slash "
               "rewrite, the 49-character guard on the normalised text and the stdlib layer (v6_text_forms, v6_text_forms_plain; "
               "the exploded and RFC 5952 compressed texts are instances), and every accepted text IS such a spelling of exactly the "
-              "stored address followed by ASCII digits whose value is the stored length, everything else raises (v6_rejects). RFC 5952 canonicity of the printed text is proved on the zero pattern of the "
-              "groups (leftmost longest run of >= 2 zero groups, text = before::after; strV6_canonical_partial), the bridge to the "
-              "Spec predicate IsShortened/hexShort is not proved. "
+              "stored address followed by ASCII digits whose value is the stored length, everything else raises (v6_rejects). "
+              "RFC 5952 canonicity of the printed IPv6 text is proved in full (strV6_canonical): for every value, str(IPv6Address(n)) satisfies "
+              "Spec.IP.IsRfc5952 - lower-case hex groups without leading zeros (hexShort_spec: each group text is THE shortest base-16 "
+              "writing of the group) separated by ':', exactly the leftmost longest run of >= 2 zero groups replaced by '::', no '::' when no "
+              "two adjacent groups are zero (rfc5952_shortens_iff); it re-reads to n through the stdlib parser model and is an RFC 4291 "
+              "spelling of n (strV6_canonical_reads); the predicate determines the text (rfc5952_unique, rfc5952_iff) and the text "
+              "determines the 128-bit value (rfc5952_value_unique). "
+              "Renderings, read by width / digits / value through the positional numerals of Spec/IP.lean (IsFixed b w s v: exactly w "
+              "lower-case base-b digits denoting v; IsShortest b s v: base-b writing without leading zeros; both proved to leave exactly one "
+              "text, numeral_unique): as_zeropadded / as_zeropadded_network are four 3-digit decimal groups joined by '.' whose values are "
+              "the octets of the address / of the network address, the latter followed by '/len' (zeropadded_spec); as_hex is '0x' + the "
+              "shortest lower-case hex writing of the address, both families (hex_spec); as_hex_tuple is four 2-digit (v4) / eight 4-digit (v6) "
+              "hex texts whose values are the octets / groups (hex_tuple_spec); as_binary_tuple is four 8-digit / eight 16-digit binary texts "
+              "with the same values (binary_spec); str(n), '%x', '%b' are the shortest decimal / hex / binary writings for every natural "
+              "number (shortest_numerals); the dotted quad is the four octets in shortest decimal joined by dots, '/len' appends len in shortest decimal (dotted_spec); the octets / groups are the base-256 / base-65536 digits of the address (octets_groups_value). "
+              "as_cidr_addr / as_cidr_net / numhosts / as_decimal* were already part of v4_values_agree / v6_values_agree. "
               "The model (its re-implementation of the stdlib parsing routines and of "
               "the two regexes included) is tied to the code by differential runs on every check, and the implementation's answers are "
               "compared to the real `ipaddress` module independently.")
 LEVEL_NOTE = ("Trusted: Lean kernel; axioms propext/Classical.choice/Quot.sound only; the correspondence harness; Python `re` and "
               "`ipaddress` are modelled (hand-written matchers / re-implementation), their agreement with the real modules is measured, not proved; "
-              "the stdlib IPv6 parser model is additionally proved sound and complete for the RFC 4291 grammar written in Spec/IP.lean.")
+              "the stdlib IPv6 parser model is additionally proved sound and complete for the RFC 4291 grammar written in Spec/IP.lean, "
+              "its printer model (_compress_hextets) proved to produce exactly the RFC 5952 text written there; the renderings are proved against "
+              "positional-numeral predicates (width / digits / value) of the same file, which the oracle also evaluates on the implementation's answers.")
 EXHAUSTIVE = {"quick": False, "thorough": False}
 ASSUMPTIONS = [
     "ipaddress (CPython 3.12) parsing/rendering is re-implemented in the model; agreement measured by three-way correspondence",
@@ -427,6 +446,85 @@ def expect6(ip, ln):
     }
 
 
+# --- the Spec-level reading of the renderings (Ccp.Spec.IP: IsFixed / IsShortest / IsRfc5952), written from the
+# definitions, not from format strings: width, digits, value
+DIGITS = "0123456789abcdef"
+
+
+def is_fixed(text, base, width, value):
+    digs = DIGITS[:base]
+    return (len(text) == width and all(c in digs for c in text)
+            and sum(digs.index(c) * base ** i for i, c in enumerate(reversed(text))) == value)
+
+
+def is_shortest(text, base, value):
+    return text != "" and (text[0] != "0" or text == "0") and is_fixed(text, base, len(text), value)
+
+
+def rfc5952(n):
+    """the RFC 5952 text of n by the quantifiers of Spec.IP.IsShortened (leftmost longest run of >= 2 zero groups)"""
+    gs = [(n >> s) & 0xFFFF for s in range(112, -1, -16)]
+    short = lambda g: ("%04x" % g).lstrip("0") or "0"  # noqa: E731
+    runs = [(s, k) for s in range(8) for k in range(2, 9 - s) if all(gs[i] == 0 for i in range(s, s + k))]
+    best = [(s, k) for (s, k) in runs if all(k2 < k or (k2 == k and s <= s2) for (s2, k2) in runs)]
+    if not best:
+        return ":".join(map(short, gs))
+    (s, k), = best
+    return ":".join(map(short, gs[:s])) + "::" + ":".join(map(short, gs[s + k:]))
+
+
+def spec_reading(v4, ip, ln, got):
+    """the theorems zeropadded_spec / hex_spec / hex_tuple_spec / binary_spec / strV6_canonical, checked on the
+    implementation's answer"""
+    fails = []
+    w = 32 if v4 else 128
+    net = ip & ~((1 << (w - ln)) - 1)
+
+    def txt(name):
+        v = got.get(name, "")
+        return wire.dec_str(v) if v.startswith("s") and " " not in v else None
+
+    def tup(name):
+        v = got.get(name, "exc:")
+        return None if v.startswith("exc:") else wire.dec_strs(v)
+
+    def groups_ok(text, sep, base, width, values):
+        parts = text.split(sep) if isinstance(text, str) else text
+        return len(parts) == len(values) and all(is_fixed(p, base, width, v) for p, v in zip(parts, values))
+
+    h = txt("as_hex")
+    if h is None or not h.startswith("0x") or not is_shortest(h[2:], 16, ip):
+        fails.append(f"as_hex {h!r} is not '0x' + the shortest lower-case hex writing of {ip}")
+    if v4:
+        octs = lambda n: [(n >> s) & 255 for s in (24, 16, 8, 0)]  # noqa: E731
+        z = txt("as_zeropadded")
+        if z is None or not groups_ok(z, ".", 10, 3, octs(ip)):
+            fails.append(f"as_zeropadded {z!r} is not four 3-digit decimal groups with the octets of {ip} as values")
+        zn = txt("as_zeropadded_network")
+        if zn is None or zn.count("/") != 1 or not groups_ok(zn.split("/")[0], ".", 10, 3, octs(net)) \
+                or not is_shortest(zn.split("/")[1], 10, ln):
+            fails.append(f"as_zeropadded_network {zn!r} is not the zero-padded network address of {ip}/{ln} + '/len'")
+        ht = tup("as_hex_tuple")
+        if ht is None or not groups_ok(ht, None, 16, 2, octs(ip)):
+            fails.append(f"as_hex_tuple {ht!r}: not four 2-digit hex texts with the octets of {ip} as values")
+        bt = tup("as_binary_tuple")
+        if bt is None or not groups_ok(bt, None, 2, 8, octs(ip)):
+            fails.append(f"as_binary_tuple {bt!r}: not four 8-digit binary texts with the octets of {ip} as values")
+    else:
+        grps = lambda n: [(n >> s) & 0xFFFF for s in range(112, -1, -16)]  # noqa: E731
+        ht = tup("as_hex_tuple")
+        if ht is None or not groups_ok(ht, None, 16, 4, grps(ip)):
+            fails.append(f"as_hex_tuple {ht!r}: not eight 4-digit hex texts with the groups of {ip} as values")
+        bt = tup("as_binary_tuple")
+        if bt is None or not groups_ok(bt, None, 2, 16, grps(ip)):
+            fails.append(f"as_binary_tuple {bt!r}: not eight 16-digit binary texts with the groups of {ip} as values")
+        for name, val in (("str(ip)", rfc5952(ip)), ("as_cidr_addr", rfc5952(ip) + "/" + str(ln)),
+                          ("as_cidr_net", rfc5952(net) + "/" + str(ln)), ("compressed", rfc5952(net) + "/" + str(ln))):
+            if txt(name) != val:
+                fails.append(f"{name} {txt(name)!r} is not the RFC 5952 text {val!r}")
+    return fails
+
+
 def stdlib_reading(op, text):
     """(ip, len) the standard library gives to the text in the spelling conventions of the property
     (surrounding blanks ignored, one run of blanks may stand for the slash), or None."""
@@ -475,4 +573,5 @@ def oracle(case, ans):
             fails.append(f"{name}: {show(g)!r} but ipaddress gives {show(e)!r} for {case['arg']!r}")
     if len(got) != len(exp):
         fails.append("oracle-exc:field count")
+    fails += spec_reading(v4, want[0], want[1], dict(zip(exp.keys(), got)))
     return fails[:3]
